@@ -531,6 +531,7 @@ pub const MARGIN_REL: f64 = 1e-6;
 impl CaseDesc {
     pub fn family(&self) -> &'static str {
         match (&self.shape, &self.aff) {
+            (Shape::Rect(d), None) if d.w > 8 => "rings",
             (Shape::Rect(_), None) => "rect",
             (Shape::Rect(_), Some(_)) => "aff-rect",
             (Shape::Oct(_), None) => "oct",
@@ -772,6 +773,29 @@ pub mod strat {
                     proptest::bool::weighted(0.7),
                 )
                     .prop_map(move |(a, b, c, coords, m0, m1, m2)| Shape::Rect(RectDesc { w, h, cells: [a, b, c], coords, merge: [m0, m1, m2] }))
+            })
+            .boxed()
+    }
+
+    /// concentric square rings on a 2L x 2L unit grid (L = 5..=12 rings): ring r (distance r from the border) is filled
+    /// in A when r is even, flipped with probability 0.15, and in B with probability 0.2 -- results nest up to
+    /// twelve levels deep (exterior, hole, island, hole, ...)
+    pub fn rings_shape() -> BoxedStrategy<Shape> {
+        (5usize..=12)
+            .prop_flat_map(|l| (Just(l), vec(proptest::bool::weighted(0.15), l), vec(proptest::bool::weighted(0.2), l), vec(proptest::bool::weighted(0.5), l), any::<bool>()))
+            .prop_map(|(l, na, b, c, m)| {
+                let w = 2 * l;
+                let ring = |i: usize, j: usize| i.min(j).min(w - 1 - i).min(w - 1 - j);
+                let mut cells = [vec![false; w * w], vec![false; w * w], vec![false; w * w]];
+                for j in 0..w {
+                    for i in 0..w {
+                        let r = ring(i, j);
+                        cells[0][j * w + i] = (r % 2 == 0) != na[r];
+                        cells[1][j * w + i] = b[r];
+                        cells[2][j * w + i] = c[r];
+                    }
+                }
+                Shape::Rect(RectDesc { w, h: w, cells, coords: None, merge: [m, true, true] })
             })
             .boxed()
     }
